@@ -10,6 +10,8 @@
 //        out: cl=<class per item> sq=<seq per item> cm=<committed bits> rs=<retry request sizes>
 //   drain <seq>...                                    pure: real recordAppendCompletion + popNextAppendCompletion loop (hook)
 //        out: per arrival the batch sequences drained, `|`-separated (`-` = none)
+//   expired <x|l per item>                            one SubmitLocal whose 'x' items carry a past Deadline (public API)
+//        out: sent=<idx…> res=<kind…> stored=<idx…>
 //   traffic <nch> <senders> <calls> <maxItems> <dupPct> <failPct> <latUs> <admCap> <backlog> <fenced> <router> <coalesce> <seed>
 //        concurrent SendBatch / SubmitLocal callers over several channels against a REAL Group (+Router) with a
 //        fake Appender / IdempotencyStore port (per-channel serialiser = the reference map; random latencies,
@@ -117,6 +119,36 @@ func genC29(g *Gen) {
 			g.Count(fmt.Sprintf("rec:mixed-retry-mode-%d", retry))
 		}
 		g.Op("rec", "%d %d %d%s", errKind, hasStore, retry, sb.String())
+	}
+	// expired items at append time: every flag pattern up to length 4, then random longer ones
+	for n := 1; n <= 4; n++ {
+		for bits := 0; bits < 1<<n; bits++ {
+			b := make([]byte, n)
+			for k := range b {
+				b[k] = 'l'
+				if bits>>k&1 == 1 {
+					b[k] = 'x'
+				}
+			}
+			if n >= 2 && b[0] == 'x' && b[1] == 'x' {
+				g.Count("expired:two-leading-inactive")
+			}
+			g.Op("expired", "%s", string(b))
+		}
+	}
+	for i := 0; i < g.N/2; i++ {
+		n := g.R.Range(5, 10)
+		b := make([]byte, n)
+		for k := range b {
+			b[k] = 'l'
+			if g.R.Chance(45) {
+				b[k] = 'x'
+			}
+		}
+		if b[0] == 'x' && b[1] == 'x' {
+			g.Count("expired:two-leading-inactive")
+		}
+		g.Op("expired", "%s", string(b))
 	}
 	// ordered completion drain: completions of append batches 0..n-1 arriving in any order, with
 	// duplicates and stale arrivals
@@ -437,6 +469,8 @@ func (r *c29Runner) Step(op string) string {
 		return c29Traffic(f[1:])
 	case "drain":
 		return c29Drain(f[1:])
+	case "expired":
+		return c29Expired(f[1:])
 	}
 	return "bad-op"
 }
@@ -539,6 +573,72 @@ func c29Drain(f []string) string {
 		parts[i] = c29Ints(xs)
 	}
 	return strings.Join(parts, "|")
+}
+
+// c29Expired: ONE SubmitLocal call on one channel through the public API; item i carries a Deadline in the
+// past when flags[i] == 'x' (prepare does not look at deadlines, the append effect does: activeAppendItems).
+// No port failures, distinct keys, so the run is deterministic:
+//   sent=<item indexes handed to the Appender, in request order> res=<0 ok | 2 error per item> stored=<item indexes persisted>
+func c29Expired(f []string) string {
+	if len(f) != 1 || len(f[0]) == 0 || len(f[0]) > 16 {
+		return "bad-op"
+	}
+	flags := f[0]
+	for _, c := range flags {
+		if c != 'x' && c != 'l' {
+			return "bad-op"
+		}
+	}
+	log := &c29Log{}
+	port := &c29Port{log: log}
+	group := channelappend.New(channelappend.Options{LocalNodeID: 1, Appender: port, Idempotency: port, MessageID: &c29IDs{}, InboxCoalesceWindow: -1})
+	if err := group.Start(context.Background()); err != nil {
+		return "start-failed"
+	}
+	items := make([]channelappend.SendBatchItem, len(flags))
+	for i, c := range flags {
+		items[i] = channelappend.SendBatchItem{Context: context.Background(), Command: channelappend.SendCommand{
+			FromUID: "u1", ClientMsgNo: c29Msg(i + 1), ChannelID: "c0", ChannelType: 2, Payload: c29Payload(i % 5)}}
+		if c == 'x' {
+			items[i].Deadline = time.Now().Add(-time.Hour)
+		}
+	}
+	target := channelappend.AuthorityTarget{ChannelID: channelappend.ChannelID{ID: "c0", Type: 2}, LeaderNodeID: 1, Epoch: 1, LeaderEpoch: 1}
+	fut, err := group.SubmitLocal(context.Background(), target, items)
+	if err != nil {
+		return "submit-failed"
+	}
+	wctx, cancel := context.WithTimeout(context.Background(), 25*time.Second)
+	res, werr := fut.Wait(wctx)
+	cancel()
+	sctx, cancel2 := context.WithTimeout(context.Background(), 25*time.Second)
+	_ = group.Stop(sctx)
+	cancel2()
+	if werr != nil {
+		return "never-answered"
+	}
+	var sent, stored, kinds []int
+	log.mu.Lock()
+	for _, t := range log.tok {
+		p := strings.Split(t, ".")
+		if p[0] == "M" {
+			m, _ := strconv.Atoi(p[3])
+			sent = append(sent, m-1)
+		}
+		if p[0] == "P" {
+			m, _ := strconv.Atoi(p[3])
+			stored = append(stored, m-1)
+		}
+	}
+	log.mu.Unlock()
+	for _, r := range res {
+		if r.Err == nil && r.Result.Reason == channelappend.ReasonSuccess {
+			kinds = append(kinds, 0)
+		} else {
+			kinds = append(kinds, 2)
+		}
+	}
+	return fmt.Sprintf("sent=%s res=%s stored=%s", c29Ints(sent), c29Ints(kinds), c29Ints(stored))
 }
 
 func c29Traffic(f []string) string {
